@@ -21,7 +21,8 @@ RULE = ("every DAG(n) n<=4 with every disjoint (L,S) (3^n assignments) and every
         "(falsy) - label 0 is a node of every case. boundary stream: the empty graph (fresh / emptied in place by remove_nodes_from with "
         "a duplicate in the bulk argument), isolated nodes only (n<=5) with L or S = all nodes, L and S omitted instead of explicit "
         "empty sets, a node dropped in place after a warm-up, and x == y / absent x or y (ValueError as the code documents). "
-        "planted stream (unit level for inducing_path / _shortest_valid_path): 900 (6000) graphs with a planted inducing path of 3-6 inner nodes "
+        "union stream: 160 (2000) disjoint unions of 2-3 planted graphs (10-20 nodes) in every part order, interleaved labels, per-part and "
+        "cross-part queries, dag_to_mag on the DAG ones. planted stream (unit level for inducing_path / _shortest_valid_path): 900 (6000) graphs with a planted inducing path of 3-6 inner nodes "
         "(non-colliders latent, colliders ancestors of x / y / S directly or through an intermediate node, or selected themselves), chords to "
         "earlier path nodes, latent dead-end decoy branches, under random relabellings, insertion orders and label families, queried (x,y), "
         "(y,x) and two random observed pairs. nested labels: two nodes labelled by the pair / frozenset of the labels of two other adjacent nodes (a fixed 8-node shape under 24 "
@@ -442,9 +443,50 @@ def planted_cases(tier, rng):
             yield c
 
 
+def union_cases(tier, rng):
+    """DISJOINT UNIONS for inducing_path / dag_to_mag: 2-3 planted graphs (each >= 5 nodes) relabelled apart and interleaved, L and S
+    the unions; queries: each part's (x,y), (y,x) and cross-part pairs (always False); every order of the parts"""
+    made, want = 0, (160 if tier == "quick" else 2000)
+    while made < want:
+        dag = rng.random() < 0.4
+        parts = []
+        for _ in range(rng.randint(2, 3)):
+            r = None
+            while r is None:
+                r = planted_graph(rng, rng.randint(3, 4), dag)
+            parts.append(r)
+        if sum(len(r[0]["V"]) for r in parts) > 20:
+            continue
+        for od in itertools.permutations(parts):
+            V, D, B, L, S, ends = [], [], [], [], [], []
+            off = 0
+            for g, Lp, Sp, x, y in od:
+                V += [off + v for v in g["V"]]
+                D += [(off + a, off + b) for a, b in g["D"]]
+                B += [(off + a, off + b) for a, b in g["B"]]
+                L += [off + v for v in Lp]
+                S += [off + v for v in Sp]
+                ends.append((off + x, off + y))
+                off += len(g["V"])
+            perm = list(range(off))
+            if made % 3:
+                rng.shuffle(perm)
+            h = gr.relabel(gr.G(V, D=D, B=B), lambda v: perm[v])
+            if made % 3 == 2:
+                rng.shuffle(h["V"])
+            qs = []
+            for x, y in ends:
+                qs += [[perm[x], perm[y]], [perm[y], perm[x]]]
+            qs += [[perm[ends[0][0]], perm[ends[1][1]]], [perm[ends[1][0]], perm[ends[0][1]]]]
+            yield {"kind": "union%d" % len(od), "g": h, "L": [perm[v] for v in L], "S": [perm[v] for v in S], "qs": qs,
+                   "dag": bool(dag and off <= 14), "oracle": False}
+            made += 1
+
+
 def gen_cases(tier, rng):
     quick = tier == "quick"
     yield from boundary_cases(tier, rng)
+    yield from union_cases(tier, rng)
     yield from planted_cases(tier, rng)
     yield from nest_cases(tier, rng)
     yield from dense_cases(tier, rng)
